@@ -69,6 +69,11 @@ type Scenario struct {
 	CancelStart bool                `json:"cancelstart"` // the context given to Start is cancelled as soon as Start has returned
 	MaxSubmitMs int                 `json:"maxsubmitms"`
 	FailAt      int                 `json:"failat"` // >0: the FailAt-th durable write of the run fails (not executed, error returned)
+	// FailKind / FailNth: instead of a position, the FailNth-th write of a kind fails. A kind is "<object kind>/<status>",
+	// with "+att" appended for an action that is written Running with attempts (the write of an attempt's result):
+	// "act/Running", "act/Running+att", "act/Completed", "seq/Running", "blk/Failed", "chk/Completed", "plan/Completed" ...
+	FailKind string `json:"failkind"`
+	FailNth  int    `json:"failnth"`
 	Root        string              `json:"root"`   // non-empty: file-backed sqlite store in this directory
 
 	curTr, curK int
@@ -257,6 +262,9 @@ type spy struct {
 	slow   time.Duration
 	writes []writeRec
 	failAt int // >0: the failAt-th write returns an error instead of being executed
+	// failKind, failNth: the failNth-th write of that kind fails (see Scenario.FailKind)
+	failKind          string
+	failNth, failSeen int
 }
 
 func (s *spy) w(kind string, id uuid.UUID, st *workflow.State, a *workflow.Action, reason workflow.FailureReason, call func() error) error {
@@ -265,8 +273,21 @@ func (s *spy) w(kind string, id uuid.UUID, st *workflow.State, a *workflow.Actio
 	}
 	s.wmu.Lock()
 	defer s.wmu.Unlock()
+	if s.failKind != "" && st != nil {
+		label := kind + "/" + st.Status.String()
+		if a != nil && st.Status == workflow.Running && len(a.Attempts) > 0 {
+			label += "+att"
+		}
+		if label == s.failKind {
+			s.failSeen++
+			if s.failSeen == s.failNth {
+				s.failAt = len(s.writes) + 1
+			}
+		}
+	}
 	if s.failAt > 0 && len(s.writes)+1 == s.failAt {
 		s.failAt = -1
+		s.failKind = ""
 		pl, obj := 0, "unknown"
 		if pr := s.nm[id]; pr != nil {
 			pl, obj = pr.pl, pr.nm.get(id)
@@ -408,7 +429,7 @@ func runEngine(rec *recorder, sc *Scenario) error {
 	if err != nil {
 		return err
 	}
-	sp := &spy{Vault: v, s: s, nm: map[uuid.UUID]*planRun{}, slow: time.Duration(sc.SlowStoreUs) * time.Microsecond, failAt: sc.FailAt}
+	sp := &spy{Vault: v, s: s, nm: map[uuid.UUID]*planRun{}, slow: time.Duration(sc.SlowStoreUs) * time.Microsecond, failAt: sc.FailAt, failKind: sc.FailKind, failNth: max(1, sc.FailNth)}
 	ws, err := coercion.New(ctx, reg, sp)
 	if err != nil {
 		return err
